@@ -8,6 +8,7 @@ set -u
 cd "$(dirname "$0")"
 VERIF=$(pwd)
 export CARGO_NET_OFFLINE=true
+export SEQIO_VERIF_DIR="$VERIF"
 export RUST_BACKTRACE=0
 ID=${1:?property id}
 TIER=${2:?quick|thorough|replay}
